@@ -3384,6 +3384,7 @@ iwrc iwkv_db(struct iwkv *iwkv, uint32_t dbid, iwdb_flags_t dbflg, struct iwdb *
   db = iwhmap_get_u32(iwkv->dbs, dbid);
   if (db) {
     if (db->dbflg != dbflg) {
+      iwkv_exclusive_unlock(iwkv);
       return IWKV_ERROR_INCOMPATIBLE_DB_MODE;
     }
     *dbp = db;
